@@ -133,6 +133,15 @@ func (t *FnTrans) call(in ssa.Instruction, c *ssa.CallCommon, res ssa.Value) {
 	if t.intrinsic(key, c, args, res) {
 		return
 	}
+	// ghost statements attached to this call site: "ghost before call <Type.Method|Func>: ..."
+	sk := key
+	if i := strings.LastIndex(sk, "/"); i >= 0 {
+		sk = sk[i+1:]
+	}
+	if i := strings.Index(sk, "."); i >= 0 {
+		sk = sk[i+1:]
+	}
+	t.ghostAt("before call " + sk)
 	for _, a := range c.Args {
 		if t.sortOf(a.Type()) == "Int" {
 			if _, isInt := intInfoOf(t.resolve(a.Type())); !isInt {
@@ -708,6 +717,12 @@ func (t *FnTrans) modPtr(p *Ptr, f func(comp, sort, ref string)) {
 }
 
 func (t *FnTrans) modPtrWhole(p *Ptr, f func(comp, sort, ref string)) {
+	if n, ok := t.resolve(p.T).(*types.Named); ok && n.Obj().Pkg() != nil && n.Obj().Pkg().Path() == "sync/atomic" && p.Kind == "field" {
+		// the value cell of an atomic embedded by value
+		if ap, ok := t.atomicCell(Val{P: p}, "sync/atomic."+n.Obj().Name()+".Load"); ok {
+			f(ap.Comp, "(Array Int "+t.sortOf(ap.T)+")", "")
+		}
+	}
 	if st, ok := t.isStruct(p.T); ok {
 		for i := 0; i < st.NumFields(); i++ {
 			t.modPtrWhole(t.fieldPtr(p, i), f)
